@@ -988,7 +988,7 @@ impl Check for FireCheck {
             let rules = rule_pats.clone();
             let re1 = to_re::<LS>(&li, &mut s.nm);
             let re2 = to_re::<LS>(&ri, &mut s.nm);
-            match catch_op(|| s.eg.explain_equivalence(re1, re2)) {
+            match { let _ph = crate::exec::phase("C07"); catch_op(|| s.eg.explain_equivalence(re1, re2)) } {
                 Err(p) => {
                     out.violations.push(panic_violation("C07", "explain_returns", &p, 0));
                 }
